@@ -12,7 +12,16 @@ let run (toks : string list) : string =
   match toks with
   | "sets" :: ops ->
     let tags = ref [0; 255] in
+    let reads = Buffer.create 64 in
+    let idx = ref (-1) in
     let c = L.fold_left (fun c t ->
+        incr idx;
+        if String.length t > 0 && t.[0] = '?' then begin
+          let tag = int_of_string (String.sub t 1 (String.length t - 1)) in
+          tags := tag :: !tags;
+          Buffer.add_string reads (Printf.sprintf " q%d=%s/%d" !idx (hx (Tlv8.get_bytes c (n_of_int tag)))
+                                     (int_of_n (Tlv8.get_byte c (n_of_int tag))));
+          c end else
         match split_on ':' t with
         | [tg; v] ->
           let tag = int_of_string tg in
@@ -24,7 +33,7 @@ let run (toks : string list) : string =
         | _ -> failwith "bad set") [] ops in
     let tags = L.sort_uniq compare !tags in
     let ser = Tlv8.serialise c in
-    let out = "ser=" ^ hx ser in
+    let out = "ser=" ^ hx ser ^ Buffer.contents reads in
     (match Tlv8.parse ser with
      | Ok c2 -> out ^ " reparse=ok" ^ gets c tags "a" ^ gets c2 tags "b"
      | Err _ -> out ^ " reparse=err"
